@@ -200,7 +200,11 @@ func discharge(o Obligation, dir string, thorough bool, timeout time.Duration) R
 		return res
 	}
 	for _, sp := range []solverSpec{solverZ3NewAuto, solverZ3Old, solverZ3OldAuto, solverCVC5} {
-		b := runOne(sp, dir, base, o.Query, timeout/2)
+		to := timeout / 2
+		if (sp.name == solverZ3NewAuto.name || sp.name == solverZ3OldAuto.name) && to > 2*time.Second {
+			to = 2 * time.Second // the default configurations answer within a fraction of a second when they answer at all
+		}
+		b := runOne(sp, dir, base, o.Query, to)
 		res.Attempts = append(res.Attempts, b)
 		res.Secs += b.Secs
 		if b.Verdict == "unsat" {
